@@ -406,6 +406,8 @@ def main():
                 chk.case("r_vec.o%d.M%d.%s" % (o, o + extra, "exact" if ex else "expanded"), case_rvec, order=o, M=o + extra, is_exact=ex)
     for od in ([(1, 1), (2, 1)] if not thorough else [(1, 1), (2, 1), (2, 2), (3, 2)]):
         for dim in (2, 4):
+            if not thorough and od == (2, 1) and dim == 4:
+                continue  # ~8 min: thorough tier only
             chk.case("qed.step.o%d%d.dim%d" % (od[0], od[1], dim), case_qed_step, order=od, dim=dim)
     # two steps: each step must use its own half-step couplings (running alpha_em) and its own interval
     chk.case("qed.2steps.o11.dim2", case_qed_step, order=(1, 1), dim=2, steps=2)
